@@ -17,8 +17,8 @@
    PyAst is single-owner: a `setitem` on an inner level held in a LOCAL variable gives that local its new value and does NOT
    write through to `self` (the alias `seed_key = self._seed_keys.setdefault(..).setdefault(..)` of _store_key); no entry
    here pretends otherwise. *)
-From V Require Import Prelude.Base Prelude.PyAst Prelude.PyAstMut Prelude.PyWorld gen.Kernels gen.K_cache.
-From V Require Import Model.Types Model.Crypto Model.KeyId Model.Gkdi Model.Kek Model.SecDesc Model.Asn1 Model.Pkcs7 Model.Blob
+From V Require Import Prelude.Base Prelude.PyAst Prelude.PyAstMut Prelude.PyWorld gen.Kernels gen.Consts gen.K_cache.
+From V Require Import Model.Types Model.Crypto Model.Chain Model.KeyId Model.Gkdi Model.Kek Model.SecDesc Model.Asn1 Model.Pkcs7 Model.Blob
   Model.CryptoWrap Model.Client Model.Cache.
 Local Open Scope string_scope.
 Local Open Scope list_scope.
@@ -34,6 +34,7 @@ Inductive obj :=
 | OSrv (target : pystr)                              (* SrvRecord: only .target is used *)
 | ORootKey (rk : root_key)                           (* RootKey *)
 | OKdfP (hash_name : pystr)                          (* KDFParameters(hash_name) *)
+| OHash (h : hash)                                   (* hashes.SHA1() .. hashes.SHA512(), what KDFParameters.hash_algorithm returns *)
 | OFfcP (p : ffcdh_params)                           (* FFCDHParameters(key_length, field_order, generator) *)
 | ODict0                                             (* {} *)
 | ORoots (l : list (bytes * root_key))               (* self._root_keys *)
@@ -58,7 +59,8 @@ Context (rnd_cek rnd_iv rnd_kek : bytes) (time_ns : Z).
 Context (lookup : list (pv obj) -> res pystr) (getkey : list (pv obj) -> res envelope).
 
 Definition cache_ext : ext obj :=
-  {| x_glob := fun _ => None;
+  {| x_glob := fun x =>
+       if String.eqb x "_EPOCH_FILETIME" then Some (Ok (VI c_EPOCH_FILETIME)) else None;
      x_attr := fun a v =>
        match v with
        | VO (OBlob b) =>
@@ -78,7 +80,19 @@ Definition cache_ext : ext obj :=
          else if String.eqb a "l0" then Some (Ok (VI (gke_l0 e)))
          else if String.eqb a "l1" then Some (Ok (VI (gke_l1 e)))
          else if String.eqb a "l2" then Some (Ok (VI (gke_l2 e)))
+         else if String.eqb a "version" then Some (Ok (VI (gke_version e)))
+         else if String.eqb a "flags" then Some (Ok (VI (gke_flags e)))
+         else if String.eqb a "kdf_algorithm" then Some (Ok (VS (gke_kdf_alg e)))
+         else if String.eqb a "kdf_parameters" then Some (Ok (VB (gke_kdf_params e)))
+         else if String.eqb a "secret_algorithm" then Some (Ok (VS (gke_secret_alg e)))
+         else if String.eqb a "secret_parameters" then Some (Ok (VB (gke_secret_params e)))
+         else if String.eqb a "private_key_length" then Some (Ok (VI (gke_priv_len e)))
+         else if String.eqb a "public_key_length" then Some (Ok (VI (gke_pub_len e)))
+         else if String.eqb a "domain_name" then Some (Ok (VS (gke_domain e)))
+         else if String.eqb a "forest_name" then Some (Ok (VS (gke_forest e)))
          else None
+       | VO (OKdfP n) =>
+         if String.eqb a "hash_algorithm" then Some (let* h := hash_algorithm n in Ok (VO (OHash h))) else None
        | VO (OSrv t) => if String.eqb a "target" then Some (Ok (VS t)) else None
        | VO (OCache cc) =>
          if String.eqb a "_root_keys" then Some (Ok (VO (ORoots (cc_roots cc))))
@@ -154,6 +168,27 @@ Definition cache_ext : ext obj :=
          end
        else if String.eqb f "KDFParameters" then
          match args with [VS h] => Some (Ok (VO (OKdfP h))) | _ => None end
+       (* ---- callees of _get_protection_gke_from_cache (its own body, gen/F_e2e.v) ---- *)
+       else if String.eqb f "time.time_ns" then
+         match args with [] => Some (Ok (VI time_ns)) | _ => None end
+       else if String.eqb f "KDFParameters.unpack" then
+         match args with [VB b] => Some (let* n := KDFParameters_unpack b in Ok (VO (OKdfP n))) | _ => None end
+       else if String.eqb f "compute_l2_key" then
+         match args with
+         | [VO (OHash h); VI l1; VI l2; VO (OEnv rk)] => Some (let* k := compute_l2_key c h l1 l2 rk in Ok (VB k))
+         | _ => None
+         end
+       else if String.eqb f "GroupKeyEnvelope/version,flags,l0,l1,l2,root_key_identifier,kdf_algorithm,kdf_parameters,secret_algorithm,secret_parameters,private_key_length,public_key_length,domain_name,forest_name,l1_key,l2_key" then
+         (* the dataclass constructor: stores its arguments *)
+         match args with
+         | [VI version; VI flags; VI l0; VI l1; VI l2; VB rid; VS ka; VB kp; VS sa; VB sp; VI priv; VI pub; VS dn; VS fn; VB k1; VB k2] =>
+           Some (Ok (VO (OEnv {| gke_version := version; gke_flags := flags; gke_l0 := l0; gke_l1 := l1; gke_l2 := l2;
+                                 gke_rkid := rid; gke_kdf_alg := ka; gke_kdf_params := kp;
+                                 gke_secret_alg := sa; gke_secret_params := sp;
+                                 gke_priv_len := priv; gke_pub_len := pub;
+                                 gke_domain := dn; gke_forest := fn; gke_l1_key := k1; gke_l2_key := k2 |})))
+         | _ => None
+         end
        else if String.eqb f "FFCDHParameters/key_length,field_order,generator" then
          match args with
          | [VI kl; VI fo; VI g] => Some (Ok (VO (OFfcP {| ffp_key_length := kl; ffp_field_order := fo; ffp_generator := g |})))
@@ -202,7 +237,7 @@ Definition cache_ext : ext obj :=
      (* none of these classes defines __bool__ / __len__: instances are true *)
      x_truthy := fun o =>
        match o with
-       | OEnv _ | OCache _ | OSrv _ | OBlob _ | OKid _ | OSid _ | ORootKey _ | OKdfP _ | OFfcP _ => Ok true
+       | OEnv _ | OCache _ | OSrv _ | OBlob _ | OKid _ | OSid _ | ORootKey _ | OKdfP _ | OFfcP _ | OHash _ => Ok true
        | ODict0 => Ok false
        | ORoots l => Ok (negb (len l =? 0))
        | _ => Raise TypeError       (* truth of a seed level would need "some key bound to a non-empty dict": not used *)
@@ -216,7 +251,9 @@ Definition cache_ext : ext obj :=
 Definition W : PyAst.world (pv obj) := std_world cache_ext.
 
 (* the same world for Prelude/PyAstMut.v (callees that mutate an argument; final values of the parameters):
-   _get_protection_gke_from_cache(root_key_identifier, target_sd, cache) hands the cache back as cc_get_key left it *)
+   _get_protection_gke_from_cache(root_key_identifier, target_sd, cache) hands the cache back as cc_get_key left it.
+   This entry (value AND cache afterwards) is what the callee's own regenerated body computes in this world:
+   Proofs/Flow_cache_gke.v, flow_get_protection_gke_from_cache_state *)
 Definition MW : mworld (pv obj) :=
   {| mw_base := W;
      mw_call_mut := fun f args =>
@@ -302,7 +339,15 @@ Definition acache_ext : ext aobj :=
          end
        else if String.eqb f "_decrypt_blob" then
          (* the key material _decrypt_blob ends up using (get_kek of the envelope for the blob's position): the o_key
-            component of Cache.unprotect_finish, which depends neither on the cache nor on the RPC count *)
+            component of Cache.unprotect_finish, which depends neither on the cache nor on the RPC count.
+            NOTE: this entry and the next are PROJECTIONS OF THE FUNCTIONS UNDER PROOF (Model/Cache.v has no separate
+            function for "use the envelope": it is inlined in unprotect_finish / protect_finish), so the abstract ties do not
+            check how the key is derived from the envelope - that is Model/Client.v decrypt_blob / encrypt_blob, tied to the
+            source in Proofs/Flow_e2e_*.v.  What the abstract ties DO check is everything around it: which envelope reaches
+            this call (the cached one / the DC's reply to exactly (sd, rk, l0, l1, l2) resp. (sd, rko, -1, -1, -1)), for which
+            blob / descriptor, whether and where it is stored first, and the cache the call leaves behind.
+            No theorem relates Model/Cache.v to Model/Client.v: the abstract and the concrete cache model are connected
+            only through the source (these flow ties, the shared k_cache kernels) and the correspondence runs. *)
          match args with
          | [VO (ABlob sd rk l0 l1 l2); VO (ACenv e)] =>
            Some (let* k := o_key (fst (unprotect_finish kdf (empty_cache (RK := RK)) sd l0 l1 l2 e 0)) in Ok (VO (AKey k)))
